@@ -222,7 +222,7 @@ func init() {
 	})
 	addSpec(&Spec{ID: "C05", Title: "parquetgen never emits silently wrong code", Level: "translation_validation",
 		Rule: "programs = every struct shape of the bounded grammar (ordered forests of {leaf, group} x {required, optional, repeated}, depth <= 3, leaf types round-robin over the 8 primitives): " +
-			"quick all 1209 shapes with <= 4 nodes plus, per primitive type, the 24 shapes with <= 2 nodes whose leaves all have that type, and T{A W; B W} for every W with <= 3 nodes (struct type reuse: equal group names under different parents); thorough all 9471 with <= 5 nodes, the single-type shapes with <= 3 nodes and a fixed sample of 2000 with 6-8 nodes; each program is generated twice (determinism), compiled, and validated on its inputs: " +
+			"quick all 1209 shapes with <= 4 nodes plus, per primitive type, the 24 shapes with <= 2 nodes whose leaves all have that type, T{A W; B W} for every W with <= 3 nodes (struct type reuse: equal group names under different parents), and chains of three nested groups (leaves at depth 4) over {required, repeated}^3 x the 9 repetition pairs of two innermost leaves; thorough all 9471 with <= 5 nodes, the single-type shapes with <= 3 nodes and a fixed sample of 2000 with 6-8 nodes; each program is generated twice (determinism), compiled, and validated on its inputs: " +
 			"every structurally distinct record (nil/non-nil x list length 0,1,2; cap 150) alone and together at page sizes 1, 2, 1000 and in 3 batches, plus seeded random multi-row-group files, through the C02, C03 and C01 monitors; " +
 			"a failing program is a disagreement, matched against known_findings.json by (shape signature, failure kind); distinct = shape signature; non-trivial = shape has a group or an optional/repeated leaf",
 		EvalCounter:  "cases",
